@@ -552,8 +552,9 @@ def dot(a, b, axis=None):
         if len(a.N) < len(b.N):
             raise ShapeMismatch(
                 'Number of the modes of the first tensor must be equal with the second.')
-        # if a.N[axis] != b.N:
-        #     raise Exception('Dimension mismatch.')
+        if [a.N[i] for i in range(len(a.N)) if i in axis] != list(b.N):
+            raise ShapeMismatch(
+                'The modes of the second tensor must be the modes of the first one along axis.')
 
         k = 0  # index for the tensor b
         cores_new = []
